@@ -1,7 +1,7 @@
 (* C13 -- data channel lifecycle: faithful open, forward-only states.
    Property theorems only; proofs in Proof/ChanDcepP.v, Proof/ChanP.v and Proof/ChanBufP.v. *)
 From Coq Require Import ZArith List Bool.
-From AV Require Import Lib.Bytes Gen.SctpConst Model.Chan Proof.ChanDcepP Proof.ChanP Proof.ChanBufP Proof.ChanOpenP Proof.ChanCloseP Proof.ChanNegP.
+From AV Require Import Lib.Bytes Gen.SctpConst Model.Chan Proof.ChanDcepP Proof.ChanP Proof.ChanBufP Proof.ChanOpenP Proof.ChanCloseP Proof.ChanNegP Proof.ChanIdsP.
 Import ListNotations.
 Local Open Scope Z_scope.
 
@@ -105,6 +105,20 @@ Theorem C13_live_ids_distinct : forall role seq is, Forall wf_input is ->
 Proof. exact live_ids_distinct. Qed.
 Print Assumptions C13_live_ids_distinct.
 
+(* 6b. ... and automatically chosen ids of the TWO sides never collide.  Two endpoints whose
+   _data_channel_id have opposite parity (0 at the DTLS server, 1 at the DTLS client: roleA - roleB odd), each
+   after ANY input history of its own: the id either would now choose for a channel that has none
+   (the value flush_loop assigns) differs from the id the other would choose - each keeps its
+   own parity for ever, because _data_channel_id never changes. *)
+Theorem C13_two_sides_never_collide : forall roleA roleB seqA seqB isA isB,
+  (roleA - roleB) mod 2 = 1 ->
+  let sA := fst (run (init roleA seqA) isA) in
+  let sB := fst (run (init roleB seqB) isB) in
+  auto_pick sA <> auto_pick sB /\
+  (auto_pick sA - roleA) mod 2 = 0 /\ (auto_pick sB - roleB) mod 2 = 0.
+Proof. exact two_sides_never_collide. Qed.
+Print Assumptions C13_two_sides_never_collide.
+
 Theorem C13_never_keyerror : forall role seq is, Forall wf_input is ->
   Forall (fun evs => ~ In (EvRaise 3) evs) (snd (run (init role seq) is)).
 Proof. exact never_keyerror. Qed.
@@ -193,10 +207,8 @@ Print Assumptions C13_negotiated_opens_when_established.
 
 (* PARTIAL (not theorems; observed by the correspondence and the two-endpoint oracle): that
    the OPEN actually reaches the peer exactly once is C01's ordered exactly-once delivery on
-   the channel's stream composed with theorems 1 and 7 (composition not mechanised); ids of
-   the TWO sides never collide (needs both endpoints: the model is one endpoint; parity per
-   role is theorem 6) and the close protocol across two endpoints (refuted on the real code
-   by known findings K4, K9, K10). *)
+   the channel's stream composed with theorems 1 and 7 (composition not mechanised); the close
+   protocol across two endpoints (refuted on the real code by known findings K4, K9, K10). *)
 
 (* non-vacuity: create, establish, flush (id 1 assigned, OPEN sent), ACK received,
    close, reset response: the channel walks connecting -> open -> closing -> closed *)
